@@ -86,7 +86,9 @@ def run_r1(chk: Check, prog: Program) -> None:
 
     # one node class throughout, and a tree that mixes two node classes (rotation must not depend on the classes of the
     # node and its neighbours: every neighbour independently ranges over both)
-    binary_kinds = frozenset(k for k in prog.concrete_kinds() if prog.is_subclass(k, "BinaryExpression"))
+    # every concrete expression class: rotation takes nodes of any class into any position (a one-operand node can end
+    # up holding a second child), so each node of the neighbourhood ranges over all of them
+    binary_kinds = frozenset(prog.concrete_kinds())
     universes = [("", frozenset(["BinaryTreeNode"])), ("mixed classes: ", binary_kinds or frozenset(["AddExpression", "MultiplyExpression"]))]
     from .common import value_equal_classes
     veq = value_equal_classes(prog)
@@ -99,7 +101,7 @@ def run_r1(chk: Check, prog: Program) -> None:
             node = it.new_summary(kinds, "arg")
             it.arg = node
             return it.call(it.getattr_(node, "rotate"), [], {})   # virtual dispatch: an override in a subclass is what runs
-        for p in explore(prog, body, {"tree_mode": "binary", "max_updepth": 2}):
+        for p in explore(prog, body, {"tree_mode": "binary", "max_updepth": 2, "child_on_left": "any"}):
             p.tag = tag
             results.append(p)
     n_cfg = 0
